@@ -768,7 +768,7 @@ class AdvURI(AdvDataField):
         :return: An AdvURI object
         :rtype: AdvURI
         """
-        if len(ad_record) >= 2:
+        if len(ad_record) >= 1:
             # Fetch the first UTF-8 character codepoint
             try:
                 scheme = ord(ad_record.decode("utf-8")[0])
